@@ -294,6 +294,32 @@ impl Tree {
                     text: reference.text.clone(),
                     reference_type: reference.reference_type,
                 }),
+                // links inside table cells point at the renamed note as well
+                Node::Table(table) => Node::Table(super::node::Table {
+                    header: table
+                        .header
+                        .iter()
+                        .map(|cell| {
+                            cell.iter()
+                                .map(|inline| inline.change_key(target_key, updated_key))
+                                .collect_vec()
+                        })
+                        .collect_vec(),
+                    rows: table
+                        .rows
+                        .iter()
+                        .map(|row| {
+                            row.iter()
+                                .map(|cell| {
+                                    cell.iter()
+                                        .map(|inline| inline.change_key(target_key, updated_key))
+                                        .collect_vec()
+                                })
+                                .collect_vec()
+                        })
+                        .collect_vec(),
+                    alignment: table.alignment.clone(),
+                }),
                 _ => self.node.clone(),
             },
             children: self
